@@ -394,6 +394,7 @@ type Explorer struct {
 	ToolErr   string
 	Budget    func() bool // returns true when exploration must stop (wall-clock guard)
 	Stopped   bool
+	Foreign   bool  // goroutines of the library outlive their calls (workers): executions are not owned; abandoned
 	Stuck     bool  // an execution made no progress (blocking the scheduler does not own): exploration abandoned
 	Spawned   int64 // goroutines started by the library, over all executions
 	SyncOps   int64 // synchronisation operations of the library, over all executions
@@ -409,6 +410,11 @@ func (x *Explorer) explore(plan []Decision, preempt int, parentHash []uint64) {
 
 	if x.Budget != nil && x.Schedules%64 == 0 && x.Budget() {
 		x.Stopped = true
+		return
+	}
+
+	if verifrt.GoLive.Load() != 0 {
+		x.Foreign, x.Stopped = true, true
 		return
 	}
 
